@@ -1,5 +1,81 @@
-# C18: formatString's stack buffer size (dune/common/stringutility.hh: `static const int bufferSize=1000;`)
+# C18: constants re-read from the source on every run:
+#  - formatString's stack buffer size (dune/common/stringutility.hh: `static const int bufferSize=1000;`)
+#  - the texts of the two NotImplemented messages of relativePath (dune/common/path.cc), split at the places where
+#    newbase and p are streamed in:  pre << newbase << mid << p << post
+#  - the text of formatString's conversion-error message
+import re as _re
+
+def _throw_pieces(text, start_pat):
+    """Return [pre, mid, post] of  DUNE_THROW(NotImplemented, "..." << newbase << "..." << p << "...")  following start_pat."""
+    m = _re.search(start_pat, text, _re.S)
+    if not m:
+        return None
+    i = text.find("DUNE_THROW", m.end())
+    if i < 0:
+        return None
+    j = text.find(";", i)
+    # the message expression ends at the ");" that closes DUNE_THROW: scan with string awareness
+    k = text.find(",", i) + 1
+    pieces, cur, n = [], "", len(text)
+    order = []
+    while k < n:
+        c = text[k]
+        if c == '"':
+            k += 1
+            while text[k] != '"':
+                if text[k] == "\\":
+                    esc = text[k + 1]
+                    cur += {"n": "\n", "t": "\t", '"': '"', "\\": "\\"}.get(esc, esc)
+                    k += 2
+                else:
+                    cur += text[k]; k += 1
+            k += 1
+        elif text.startswith("<<", k):
+            k += 2
+        elif c.isalpha() or c == "_":
+            mm = _re.match(r"[A-Za-z_]\w*", text[k:])
+            order.append(mm.group(0)); pieces.append(cur); cur = ""
+            k += len(mm.group(0))
+        elif c == ")":
+            pieces.append(cur); break
+        else:
+            k += 1
+    if order != ["newbase", "p"] or len(pieces) != 3:
+        return None
+    return pieces
+
+def _coq_string(s):
+    if not all(32 <= ord(c) < 127 for c in s):
+        raise ValueError("non-printable character in message")
+    return '"' + s.replace('"', '""') + '"%string'
+
 def lines(repo, read, find, report):
     su = read("dune/common/stringutility.hh")
     n = find("c18_param_format_buffer", su, r"static\s+const\s+int\s+bufferSize\s*=\s*(\d+)\s*;", 1000)
-    return ["Definition c18_param_format_buffer : nat := %d." % n]
+    out = ["Definition c18_param_format_buffer : nat := %d." % n]
+    pc = read("dune/common/path.cc")
+    defaults = {
+        "abs": ['relativePath: paths must be either both relative or both absolute: newbase="', '" p="', '"'],
+        "up": ['relativePath: newbase has too many leading ".." components: newbase="', '" p="', '"'],
+    }
+    got = {}
+    for key, pat in (("abs", r"if\s*\(\s*absbase\s*!=\s*absp\s*\)"), ("up", r'if\s*\(\s*hasPrefix\s*\(\s*mybase\s*,\s*"\.\./"\s*\)\s*\)')):
+        try:
+            pcs = _throw_pieces(pc, pat)
+            for s in pcs or []:
+                _coq_string(s)
+        except Exception:
+            pcs = None
+        if pcs:
+            got[key] = pcs; report["c18_param_msg_" + key] = {"value": pcs, "source": "extracted"}
+        else:
+            got[key] = defaults[key]; report["c18_param_msg_" + key] = {"value": defaults[key], "source": "DEFAULT (not located in source)"}
+    m = _re.search(r'if\s*\(r<0\)\s*DUNE_THROW\(Dune::Exception,\s*"((?:[^"\\]|\\.)*)"\)', su)
+    fe = m.group(1) if m else "Could not convert format string using given arguments."
+    report["c18_param_msg_format"] = {"value": fe, "source": "extracted" if m else "DEFAULT (not located in source)"}
+    out.append("From Coq Require Import String.")
+    for key in ("abs", "up"):
+        for part, s in zip(("pre", "mid", "post"), got[key]):
+            out.append("Definition c18_param_msg_%s_%s : string := %s." % (key, part, _coq_string(s)))
+    out.append("Definition c18_param_msg_format : string := %s." % _coq_string(fe))
+    return out
